@@ -295,12 +295,12 @@ func main() {
 	out := c.NewOut(c.OutPath())
 	defer out.Close()
 	r := c.NewRng(c.Seed())
-	nPure := c.Budget(6000, 300000)
-	nBlock := c.Budget(3000, 150000)
-	n := c.Budget(100, 4000)
+	nPure := c.Budget(6000, 200000)
+	nBlock := c.Budget(3000, 80000)
+	n := c.Budget(100, 1200)
 	nops := 50
 	if c.Tier() == "thorough" {
-		nops = 120
+		nops = 100
 	}
 	workers := c.Workers()
 	// the pure streams are split into `workers` chunks that run as sequences of their own
@@ -310,9 +310,6 @@ func main() {
 		case seq < chunks:
 			pureCases(w, out, r, nPure/chunks+1)
 		case seq < 2*chunks:
-			if seq == chunks {
-				blockCases(w, out, c.NewRng(c.Seed()), 1) // witness first
-			}
 			blockCases(w, out, r, nBlock/chunks+1)
 		default:
 			if seq == 2*chunks {
